@@ -513,13 +513,26 @@ func scenarioC15(r *Run) {
 		r.Fail("accepted-key-cannot-be-encoded", "a decoded key cannot be re-encoded: %v\n%s", err, hexShort(stored))
 		return
 	}
+	// root-cause discrimination for the re-encoding checks below: the CBOR
+	// library decodes a map key tagged 0 or 1 (date/time) into time.Time and
+	// encodes it back as a bare number, which can collide with an integer key
+	// of the same nested map
+	timeKey := hasTimeTaggedMapKey(stored)
 	if why := refcbor.IsCanonicalBytes(enc1); why != "" {
+		if timeKey {
+			r.Fail("reencoding-breaks/time-tagged-map-key", "a nested map with a key tagged 0/1 (date/time) is re-encoded with that key as a bare number: %s\nstored: %s\nre-encoded: %x", why, hexShort(stored), enc1)
+			return
+		}
 		r.Fail("key-encoding-not-canonical", "re-encoded key is not deterministic CBOR: %s\n%x", why, enc1)
 		return
 	}
 	var k2 cose.Key
 	r.Lib(func() { err = k2.UnmarshalCBOR(enc1) })
 	if err != nil {
+		if timeKey {
+			r.Fail("reencoding-breaks/time-tagged-map-key", "the re-encoding of an accepted key with a date/time-tagged map key is refused: %v\nstored: %s\nre-encoded: %x", err, hexShort(stored), enc1)
+			return
+		}
 		r.Fail("reencoded-key-refused", "the re-encoding of an accepted key is refused: %v\nstored: %s\nre-encoded: %x", err, hexShort(stored), enc1)
 		return
 	}
@@ -580,4 +593,29 @@ func opsShape(v *refcose.KeyView) string {
 		return "ops-empty"
 	}
 	return "ops-nonempty"
+}
+
+// hasTimeTaggedMapKey reports whether some map (at any depth) has a key
+// wrapped in tag 0 or 1 (possibly under tag 55799 wrappers).
+func hasTimeTaggedMapKey(b []byte) bool {
+	it, err := refcbor.ParseOne(b)
+	if err != nil {
+		return false
+	}
+	found := false
+	refcbor.Walk(it, func(x *refcbor.Item, _ int) {
+		if x.Major != refcbor.MMap {
+			return
+		}
+		for i := 0; i+1 < len(x.Elems); i += 2 {
+			k := x.Elems[i]
+			for k.Major == refcbor.MTag && k.Arg == 55799 && len(k.Elems) == 1 {
+				k = k.Elems[0]
+			}
+			if k.Major == refcbor.MTag && (k.Arg == 0 || k.Arg == 1) {
+				found = true
+			}
+		}
+	})
+	return found
 }
